@@ -57,6 +57,23 @@ class VCon(object):
         return "%s#%d%r" % (self.adt, self.idx, self.fields)
 
 
+class Opaque(object):
+    """Only used by the interpreter's "F3" deviation mode (see interp.py): the unchecked result of
+    `un_i_data` / `un_b_data` / .. applied to Data of the wrong kind. Turning it back into Data gives the
+    original Data; every other use aborts."""
+
+    __slots__ = ("d",)
+
+    def __init__(self, d):
+        self.d = d
+
+    def _no(self, *a):
+        raise TypeError("opaque")
+
+    __eq__ = __ne__ = __lt__ = __le__ = __gt__ = __ge__ = _no
+    __hash__ = None
+
+
 def adt_table(module_adts):
     t = dict(PRELUDE_ADTS)
     for a in module_adts:
@@ -72,6 +89,8 @@ def ctor_field_types(adts, ty, idx):
 
 
 def to_data(v, ty, adts):
+    if type(v) is Opaque:
+        return v.d
     k = ty[0]
     if k == "Int":
         return ("i", v)
